@@ -73,6 +73,37 @@ func (pn *protoNames) effect(ins ssa.Instruction) (string, bool) {
 
 // selectEdge classifies the edge taken for case k of a select as the
 // communication it performs.
+// condEdge: a branch on a value that is, on this path, the comma-ok result of
+// a receive: open / closed edge of that channel.
+func (pn *protoNames) condEdge(v ssa.Value, truth bool) (string, bool) {
+	e, ok := v.(*ssa.Extract)
+	if !ok {
+		return "", false
+	}
+	n := ""
+	if u, ok := e.Tuple.(*ssa.UnOp); ok && u.Op == token.ARROW && u.CommaOk && e.Index == 1 {
+		n = pn.chanName(u.X)
+	}
+	if sel, ok := e.Tuple.(*ssa.Select); ok && e.Index == 1 {
+		for _, stt := range sel.States {
+			if stt.Dir == types.RecvOnly {
+				if cn := pn.chanName(stt.Chan); cn != "" && (n == "" || n == cn) {
+					n = cn
+				} else {
+					n = "select"
+				}
+			}
+		}
+	}
+	if n == "" {
+		return "", false
+	}
+	if truth {
+		return "open:" + n, true
+	}
+	return "closed:" + n, true
+}
+
 func (pn *protoNames) edge(from *ssa.BasicBlock, succ int) (string, bool) {
 	i := ifOf(from)
 	if i == nil {
@@ -253,6 +284,7 @@ func (m *writerModel) walker() *Walker {
 	w := NewWalker(m.c)
 	w.Effect = m.names.effect
 	w.Edge = m.names.edge
+	w.CondEdge = m.names.condEdge
 	return w
 }
 
